@@ -164,4 +164,16 @@ CHECKS = {
                 "replayed explicitly); ToleranceXY decided on integer vertices.",
         "technique": "TLA+ definitional equality relations (TLC exhaustive equivalence laws) + TLC-enumerated pairs replayed + TLC trace validation",
     },
+    "C17": {
+        "text": "LinearOps.tla states the contracts with exact integer / rational arithmetic: the point at a rational arc-length "
+                "fraction of a lattice line with integer segment lengths (and its interpolated Z/M), the evenly spaced points, the "
+                "Simplify contract (subsequence, same end points, every dropped vertex within the rational threshold of the line "
+                "through its bracketing kept vertices, valid or error), the Densify contract (original vertices in order, added points "
+                "on the segment in order, no gap longer than d), SnapToGrid oddness / idempotence / finiteness as relations on IEEE bits "
+                "and the half-step bound on decimals, Reverse involution and ForceCW/CCW; TLC validates every recorded call of the real "
+                "library against them.",
+        "note": TLCNOTE + "Positions decided to 2^-9 (interpolation) and 2/256 (densify) of the lattice unit; SnapToGrid half-step "
+                "bound only for 3-digit decimal mantissas; ordinates up to +-1e300 as the property states.",
+        "technique": "TLA+ exact contracts (integer/rational arithmetic, bit relations); TLC trace validation of recorded calls",
+    },
 }
